@@ -53,7 +53,9 @@ func (o *replayOut) summary() string {
 func (o *replayOut) reproduces(f Failure) bool {
 	switch f.Kind {
 	case "assert":
-		if strings.HasPrefix(f.AssertID, "C18.") && strings.Contains(o.raw, "DATA RACE") {
+		// concurrency assertions: the race detector's report, or a crash that only the concurrent run shows
+		// (the sequential witness of the same harness passed), e.g. "concurrent map writes" or a corrupted buffer
+		if strings.HasPrefix(f.AssertID, "C18.") && (strings.Contains(o.raw, "DATA RACE") || o.panicked || strings.Contains(o.raw, "fatal error: concurrent map")) {
 			return true
 		}
 		return o.failed[f.AssertID]
